@@ -744,6 +744,16 @@ def _group(ctx, T, which, desc, groove, gap, kinds, lean):
         outcome = _solve(rp, ip)
         fg = _from_groove(groove, width=wexp, gap=gap) if which == "two" else None
         _oracle(ctx, which, groove, gap, rp, w, outcome, geo, fg, replay)
+        if outcome[0] == "ok" and rng.random() < 0.2:
+            # history: the SAME pass instance solved again with another prescribed width (nothing of the first solution may stick)
+            kind2 = rng.choice([k for k in WIDTH_KINDS[1:] if k != kind])
+            w2 = _width_for(kind2, rng, puw, cap, ext_raw)
+            rp.c08_width = w2
+            out2 = _solve(rp, ip)
+            ctx.count("resolved-same-instance:" + kind2)
+            ctx.case([which, desc["cls"], round(math.log10(scale), 3), round(gap / uw, 9), kind, kind2, round(w2 / cap, 6)])
+            _oracle(ctx, which, groove, gap, rp, w2, out2, geo, _from_groove(groove, width=w2, gap=gap) if which == "two" else None,
+                    dict(replay, width_kind=kind2, width=w2, first_width=w, note="second solve of the same pass instance"))
         if len(ctx.samples) < 4 and kind in ("pad", "beyond"):
             ctx.sample({k: replay[k] for k in ("pass", "groove", "gap", "width_kind", "width", "capacity")} |
                        {"outcome": outcome[0] if outcome[0] == "ok" else list(outcome[1:3])})
@@ -950,6 +960,11 @@ def run(ctx):
             if rng.random() < 0.1:
                 kinds.append(rng.choice(["zero", "negative", "nan", "inf"]))
             _group(ctx, T, which, desc, g, gap, kinds, lean)
+            if rng.random() < 0.25:
+                # the same groove OBJECT in a pass with another gap (nothing may be remembered per groove)
+                gap2 = uw * 10 ** rng.uniform(-3, math.log10(0.5))
+                ctx.count("same-groove-other-gap")
+                _group(ctx, T, which, desc, g, gap2, rng.sample(WIDTH_KINDS[:6], 3), lean)
             done += 1
     except _ImplRaised as ex:
         ctx.violation("pass-geometry-raises", str(ex)[:300], {"note": "raised while reading the opening of a fresh pass"})
@@ -972,7 +987,12 @@ def replay(ctx, data):
     if r.get("read") == "init_solve":
         _oracle_seed(ctx, which, g, gap, geo, ip, r)
         return
-    rp = _make_pass(which, g, gap, w)
+    if "first_width" in r:              # history: the same instance solved twice
+        rp = _make_pass(which, g, gap, r["first_width"])
+        _solve(rp, ip)
+        rp.c08_width = w
+    else:
+        rp = _make_pass(which, g, gap, w)
     outcome = _solve(rp, ip)
     wexp = float(probe.usable_width) if w is None else w
     fg = _from_groove(g, width=wexp, gap=gap) if which == "two" else None
